@@ -22,7 +22,7 @@ func propC11(ch core.Chooser, st *core.Stats) error {
 	h.full = 64
 	// quiescent part: states built by phased histories, scanned by fullCheck (multiset equality,
 	// no duplicates, ErrIterationDone on every further call)
-	if err := h.phases(core.Scale(5, 8), core.Scale(300, 900), []int{7, 3, 4, 1, 1, 0}); err != nil {
+	if err := h.phases(core.Scale(5, 8), core.Scale(300, 900), []int{7, 3, 4, 1, 1, 0, 2}); err != nil {
 		return err
 	}
 	st.Count("quiescent_scans", 1)
